@@ -138,6 +138,9 @@ def gen_engine(rng, exact=None, activation="general", n_in=None, batch_ok=False,
         lo, hi = rng.choice([(0.0, 1.0), (-1.0, 1.0), (0.0, 4.0), (-2.0, 2.0)])
         terms = []
         for j in range(rng.randint(2, 3)):
+            if rng.random() < 0.12:
+                terms.append(discrete_term(rng, f"i{i}t{j}", lo, hi, exact))
+                continue
             cls, ps, h = shape_term(rng, f"t{j}", lo, hi, exact)
             terms.append({"name": f"i{i}t{j}", "kind": "shape", "cls": cls, "params": ps, "height": h})
         inputs.append({"name": f"in{i}", "enabled": rng.random() < 0.92, "min": lo, "max": hi, "lock_range": rng.random() < 0.2,
@@ -164,6 +167,9 @@ def gen_engine(rng, exact=None, activation="general", n_in=None, batch_ok=False,
             agg = rng.choice([None, None] + (EXACT_S if exact else CONT_S))
         else:
             for j in range(rng.randint(2, 3)):
+                if rng.random() < 0.12:
+                    terms.append(discrete_term(rng, f"o{o}t{j}", lo, hi, exact))
+                    continue
                 cls, ps, h = shape_term(rng, "", lo, hi, exact)
                 terms.append({"name": f"o{o}t{j}", "kind": "shape", "cls": cls, "params": ps, "height": h})
             kinds = ["Centroid", "Centroid", "MeanOfMaximum", "SmallestOfMaximum", "LargestOfMaximum"] if exact else ["Centroid"]
@@ -217,7 +223,27 @@ def rule_text(rule):
     return t
 
 
+def discrete_term(rng, name, lo, hi, exact):
+    """a Discrete term: increasing abscissae inside (and slightly beyond) the range, ordinates in [0, 1]"""
+    w = hi - lo
+    if exact:
+        k = rng.choice([2, 3, 5])
+        xs = [lo + i * w / 4 for i in sorted(rng.sample(range(0, 5), k))]
+        # power-of-two gaps only (slopes must be dyadic): keep consecutive quarter points or halves
+        xs = [lo, lo + w / 2, hi][: max(2, min(3, k))] if rng.random() < 0.5 else [lo + w / 4, lo + w / 2]
+        ys = [rng.choice([0.0, 0.25, 0.5, 1.0]) for _ in xs]
+        h = rng.choice([1.0, 0.5])
+    else:
+        n = rng.randint(1, 5)
+        xs = sorted({round(rng.uniform(lo - 0.1 * w, hi + 0.1 * w), 3) for _ in range(n)})
+        ys = [round(rng.random(), 3) for _ in xs]
+        h = rng.choice([1.0, 1.0, 0.5, round(rng.uniform(0.2, 1.0), 2)])
+    return {"name": name, "kind": "discrete", "xy": [v for p in zip(xs, ys) for v in p], "height": h}
+
+
 def mk_term(t, engine=None):
+    if t["kind"] == "discrete":
+        return fl.Discrete(t["name"], list(t["xy"]), t["height"])
     if t["kind"] == "shape":
         return getattr(fl, t["cls"])(t["name"], *t["params"], height=t["height"])
     if t["kind"] == "constant":
@@ -271,6 +297,8 @@ def build(desc):
 
 
 def term_sx(t):
+    if t["kind"] == "discrete":
+        return ["discrete", t["name"], list(t["xy"][0::2]), list(t["xy"][1::2]), t["height"]]
     if t["kind"] == "shape":
         return ["shape", t["name"], t["cls"], list(t["params"]), t["height"]]
     if t["kind"] == "constant":
